@@ -11,7 +11,7 @@
 (* clear.  The listed properties are invariants / action properties below; *)
 (* the EDGE lines bind the same transitions to the implementation.         *)
 (***************************************************************************)
-EXTENDS Naturals, Sequences, FiniteSets, TLC, Json, Utf8
+EXTENDS Naturals, Sequences, FiniteSets, TLC, Json, Utf8, Domains
 
 CONSTANTS SubjectNames,  \* names of catalogue entries to explore
           NSlots,        \* size of the slot pool
@@ -36,64 +36,13 @@ View == <<subj, slots, ghost, Len(path)>>
 Sh == subj.shape
 
 ---------------------------------------------------------------------------
-(* Per-shape value domains: small, but chosen to separate the cases the    *)
-(* code distinguishes (empty / one / several elements, equal and unequal   *)
-(* neighbours, 1-4 byte UTF-8 scalars, a never-equal value, ragged rows).  *)
-Min(a, b) == IF a < b THEN a ELSE b
-Take(s, n) == SubSeq(s, 1, Min(n, Len(s)))
-Pick(s, k) == s[((k - 1) % Len(s)) + 1]
-F64(b, n) == [bits |-> b, nan |-> n]
-
-StringDom == << <<97>>, <<195, 164>>, <<>>, <<240, 159, 152, 128, 97>>, <<226, 130, 172>> >>
-
-ScalarDom(t) ==
-  CASE t = "u8"    -> <<7, 200, 0>>
-    [] t = "u16"   -> <<7, 60000, 0>>
-    [] t = "u32"   -> <<"7", "4294967295", "0">>
-    [] t = "u64"   -> <<"7", "18446744073709551615", "0">>
-    [] t = "usize" -> <<"7", "18446744073709551615", "0">>
-    [] t = "i8"    -> <<"-128", "7", "0">>
-    [] t = "unit"  -> <<"unit">>
-    [] t = "bool"  -> <<"true", "false">>
-    [] t = "char"  -> <<"c:97", "c:128512", "c:0">>
-    [] t = "f64"   -> <<F64("3ff0000000000000", FALSE), F64("7ff8000000000001", TRUE),
-                        F64("fff0000000000000", FALSE)>>
-    [] t = "string" -> StringDom
-
-RECURSIVE DomSeq(_)
-DomSeq(sh) ==
-  CASE sh.k = "owned" ->
-         LET d == ScalarDom(sh.t)
-         IN  << <<Pick(d, 1)>>, <<Pick(d, 1), Pick(d, 2)>>, <<>>, <<Pick(d, 2)>>,
-                <<Pick(d, 2), Pick(d, 2), Pick(d, 1)>> >>
-    [] sh.k = "string" -> StringDom
-    [] sh.k \in {"mirror", "vecreg"} -> ScalarDom(sh.t)
-    [] sh.k = "option" ->
-         LET d == DomSeq(sh.inner)
-         IN  << [t |-> "some", v |-> Pick(d, 1)], [t |-> "none"], [t |-> "some", v |-> Pick(d, 2)],
-                [t |-> "some", v |-> Pick(d, 3)] >>
-    [] sh.k = "result" ->
-         LET a == DomSeq(sh.ok)
-             b == DomSeq(sh.err)
-         IN  << [t |-> "ok", v |-> Pick(a, 1)], [t |-> "err", v |-> Pick(b, 1)],
-                [t |-> "ok", v |-> Pick(a, 2)], [t |-> "err", v |-> Pick(b, 2)] >>
-    [] sh.k = "tuple" ->
-         \* field 1 follows 1,1,2,2; field 2 follows 1,2,2,1; further fields 1,1,2,2
-         LET sel(i, k) == IF i = 2 THEN <<1, 2, 2, 1>>[k] ELSE <<1, 1, 2, 2>>[k]
-         IN  [k \in 1..4 |-> [i \in 1..Len(sh.fs) |-> Pick(DomSeq(sh.fs[i]), sel(i, k))]]
-    [] sh.k = "slice" ->
-         LET d == DomSeq(sh.inner)
-         IN  << <<Pick(d, 1)>>, <<Pick(d, 1), Pick(d, 2)>>, <<>>, <<Pick(d, 2)>>,
-                <<Pick(d, 2), Pick(d, 2), Pick(d, 1)>> >>
-    [] sh.k \in {"collapse", "cip"} -> DomSeq(sh.inner)
-    [] sh.k = "columns" ->
-         LET d == DomSeq(sh.inner)
-         IN  << <<Pick(d, 1)>>, <<Pick(d, 1), Pick(d, 2)>>, <<>>, <<Pick(d, 2), Pick(d, 1), Pick(d, 1)>>,
-                <<Pick(d, 2)>> >>
-
 DomOf(sh) == Take(DomSeq(sh), DomSize)
-Dom == {DomOf(Sh)[i] : i \in 1..Len(DomOf(Sh))}
-Batches == {<<>>, <<DomOf(Sh)[1]>>, Take(DomOf(Sh), 2)}
+\* Values of different variants may not be comparable in TLC (a string against a number), so the
+\* domain is never turned into a SET: quantification is over positions of the domain sequence.
+DomIdx == 1..Len(DomOf(Sh))
+DomAt(i) == DomOf(Sh)[i]
+BatchIdx == 1..3
+BatchAt(i) == <<<<>>, <<DomOf(Sh)[1]>>, Take(DomOf(Sh), 2)>>[i]
 
 SlotIds == 1..NSlots
 \* source lists for merge / reserve_regions: none, one, or all slots
@@ -199,7 +148,7 @@ EnabledQ(q) == q \in Queries
 
 Next ==
   /\ Len(path) < MaxOps
-  /\ \/ Enabled("push") /\ \E s \in SlotIds, f \in 1..Len(subj.forms), v \in Dom : Push(s, f, v)
+  /\ \/ Enabled("push") /\ \E s \in SlotIds, f \in 1..Len(subj.forms), vi \in DomIdx : Push(s, f, DomAt(vi))
      \/ Enabled("push_from") /\ \E d \in SlotIds, s \in SlotIds, i \in 1..MaxOps, rep \in {"region", "owned"} :
                                    PushFrom(d, s, i, rep)
      \/ Enabled("clear") /\ \E s \in SlotIds : Clear(s)
@@ -207,10 +156,10 @@ Next ==
           Enabled(o) /\ \E d \in SlotIds, s \in SlotIds : Copy(o, d, s)
      \/ Enabled("merge") /\ \E d \in SlotIds, srcs \in SrcLists : Merge(d, srcs)
      \/ Enabled("reserve_regions") /\ \E s \in SlotIds, srcs \in SrcLists : ReserveRegions(s, srcs)
-     \/ Enabled("reserve_items") /\ \E s \in SlotIds, f \in 1..3, vs \in Batches : ReserveItems(s, f, vs)
+     \/ Enabled("reserve_items") /\ \E s \in SlotIds, f \in 1..3, bi \in BatchIdx : ReserveItems(s, f, BatchAt(bi))
      \/ EnabledQ("get") /\ \E s \in SlotIds, i \in 1..MaxOps, pos \in 0..5, rep \in {"region", "owned"} :
                               Get(s, i, pos, rep)
-     \/ EnabledQ("clone_onto") /\ \E s \in SlotIds, i \in 1..MaxOps, t \in Dom : CloneOntoQ(s, i, t)
+     \/ EnabledQ("clone_onto") /\ \E s \in SlotIds, i \in 1..MaxOps, ti \in DomIdx : CloneOntoQ(s, i, DomAt(ti))
      \/ EnabledQ("borrow") /\ \E s \in SlotIds, i \in 1..MaxOps : BorrowQ(s, i)
 
 Spec == Init /\ [][Next]_vars
@@ -260,8 +209,9 @@ StringsValid ==
 \* C08 / C10: observational equivalence of two states, looking EquivDepth pushes ahead
 RECURSIVE ObsEquiv(_, _, _)
 ObsEquiv(a, b, k) ==
-  k = 0 \/ \A v \in Dom :
-             LET ra == PushR(Sh, a, v)
+  k = 0 \/ \A vi \in DomIdx :
+             LET v  == DomAt(vi)
+                 ra == PushR(Sh, a, v)
                  rb == PushR(Sh, b, v)
              IN  /\ ra.idx = rb.idx
                  /\ ReadR(Sh, ra.st, ra.idx) = ReadR(Sh, rb.st, rb.idx)
@@ -273,8 +223,9 @@ MergeFresh == \A srcs \in SrcLists :
 \* C11: a top-level collapsing region returns the previous index exactly for an equal neighbour
 CollapseExact ==
   Sh.k = "collapse" =>
-    \A s \in SlotIds : \A v \in Dom :
-      LET sl   == slots[s]
+    \A s \in SlotIds : \A vi \in DomIdx :
+      LET v    == DomAt(vi)
+          sl   == slots[s]
           r    == PushR(Sh, sl.st, v)
           n    == Len(sl.issued)
           same == n > 0 /\ Equal(Sh, v, sl.issued[n].v)
@@ -300,13 +251,15 @@ GetExact ==
         GetB(slots[s], i, pos) = ItemGet(slots[s].issued[i].v, pos)
 
 \* C14: clone_onto(x, t) leaves t equal to x whatever t held before
-CloneOntoLaw == \A s \in SlotIds : \A i \in 1..Len(slots[s].issued) : \A t \in Dom :
-                  CloneOnto(Sh, slots[s].issued[i].v, t) = slots[s].issued[i].v
+CloneOntoLaw == \A s \in SlotIds : \A i \in 1..Len(slots[s].issued) : \A ti \in DomIdx :
+                  CloneOnto(Sh, slots[s].issued[i].v, DomAt(ti)) = slots[s].issued[i].v
 
-\* C18: used bytes never decrease on push and drop to bookkeeping on clear
+\* C18: used bytes never decrease on push (the last operation is visible in path')
+LastOp == path'[Len(path')]
 UsedMonotone ==
-  [][\A s \in SlotIds :
-       /\ (IsPrefixOf(slots[s].issued, slots'[s].issued)) => UsedR(Sh, slots'[s].st) >= UsedR(Sh, slots[s].st)]_vars
+  [][LastOp.op \in {"push", "push_from"} =>
+       LET t == IF LastOp.op = "push" THEN LastOp.s ELSE LastOp.d
+       IN  UsedR(Sh, slots'[t].st) >= UsedR(Sh, slots[t].st)]_vars
 
 ---------------------------------------------------------------------------
 Obs(sls) == [s \in SlotIds |->
